@@ -1136,6 +1136,40 @@ def dims_harness(c, mr, dims, mr_valgrind=None):
                         vkey = "F21:mercurius-safe_mode0-add-then-step-synchronizes-with-uninitialised-dcrit"
                     c.violation(vkey, "%s, options %s: %s" % (integ, o, bad),
                                 {"integrator": integ, "options": o, "harness_lines": lines, "report": res["report"]})
+    # deterministic witnesses of the two findings of this dimension (whatever the random histories happen to do)
+    for integ in ("whfast", "saba", "ias15", "leapfrog", "janus", "mercurius", "eos", "bs", "trace"):
+        L = ["new 0 0 0 %d" % INTEGRATORS[integ], "set dt 0.01", "addo 1 1.0 0.0 0.0 0.0 0.0 0.0 0.0 0.0",
+             "addo 100 0.0001 0.0 1.0 0.0 0.0 0.0 1.0 0.0", "step 1", "rm 1 1", "step 1", "rm 0 1", "step 1",
+             "addo 1 1.0 0.0 0.0 0.0 0.0 0.0 0.0 0.0", "step 1"]
+        res = mr.run_text(L, timeout=300)
+        if not res["bad"] and mr_valgrind is not None:
+            res = mr_valgrind.run_text(L, timeout=300)
+        dims["step_with_N_1_and_N_0:" + integ] = dims.get("step_with_N_1_and_N_0:" + integ, 0) + 3
+        c.count(("dim-empty-step", integ), n=len(L))
+        if res["bad"]:
+            rep_ = res["report"]
+            k_ = "C14:step_with_N_1_and_N_0:" + integ
+            if integ in ("whfast", "saba") and ("reb_particles_transform_inertial_to_jacobi" in rep_ or "reb_integrator_whfast_init" in rep_):
+                k_ = "F23:whfast-step-with-N-0-writes-outside-p_jh"
+            c.violation(k_, "%s: step after the last particle was removed (N=0): %s" % (integ, rep_[:300].replace("\n", " | ")),
+                        {"integrator": integ, "harness_lines": L, "report": rep_})
+    if not c.thorough or mr_valgrind is not None:
+        mv = mr_valgrind if mr_valgrind is not None else mr       # uninitialised reads: valgrind only
+        L = ["new 0 0 0 25", "set dt 0.01", "set collision 1", "set merge 1", "addo 1 1.0 0.01 0.0 0.0 0.0 0.0 0.0 0.0",
+             "addo 100 0.0001 0.001 1.0 0.0 0.0 0.0 1.0 0.0", "addo 101 0.0001 0.001 2.0 0.0 0.0 0.0 0.7071 0.0",
+             "addo 102 0.0001 0.02 3.0 0.0 0.0 0.0 0.57735 0.0", "addo 103 0.0001 0.02 3.03 0.0 0.0 0.0 0.57 0.0",
+             "step 1", "step 1", "step 1", "get 102", "get 103"]
+        res = mv.run_text(L, timeout=300)
+        merged = len(res["out"]) == len(L) and res["out"][-1].split()[1] == "4"
+        dims["trace_midstep_removal_of_last_particle"] = dims.get("trace_midstep_removal_of_last_particle", 0) + (1 if (merged or res["bad"]) else 0)
+        c.count(("dim-trace-merge",), n=len(L))
+        if res["bad"]:
+            rep_ = res["report"]
+            k_ = "C14:trace_midstep_removal"
+            if "uninitialised" in rep_ and "reb_integrator_trace_interaction_step" in rep_ and "Invalid" not in rep_:
+                k_ = "F22:trace-current_Ks-misaligned-after-removing-the-last-particle-mid-step"
+            c.violation(k_, "TRACE, direct collisions, merge of the two outermost bodies during a step: " + rep_[:300].replace("\n", " | "),
+                        {"harness_lines": L, "report": rep_})
     # internal removals
     for integ in ("ias15", "leapfrog", "whfast", "mercurius", "trace", "bs"):
         for mode, bnd in ((1, False), (4, False), (2, False), (5, False), (0, True)):
@@ -1190,7 +1224,15 @@ def dims_harness(c, mr, dims, mr_valgrind=None):
             dims["internal_removal:keep_sorted_%d" % ks] = dims.get("internal_removal:keep_sorted_%d" % ks, 0) + removed
             c.count(("dim-internal", integ, mode, bnd, ks), n=len(L))
             if bad:
-                c.violation("C14:%s:%s" % (key, integ), "%s, keep_sorted=%d: %s" % (integ, ks, bad),
+                rep_ = res["report"]
+                k_ = "C14:%s:%s" % (key, integ)
+                if integ == "trace" and "uninitialised" in rep_ and "reb_integrator_trace_interaction_step" in rep_ and "Invalid" not in rep_:
+                    k_ = "F22:trace-current_Ks-misaligned-after-removing-the-last-particle-mid-step"
+                elif integ == "whfast" and (("Invalid write" in rep_ and "reb_particles_transform_inertial_to_jacobi_posvel" in rep_ and "reb_integrator_whfast_part1" in rep_)
+                                            or ("null pointer passed as argument 1" in rep_ and "reb_integrator_whfast_init" in rep_)):
+                    # (only N == 0 gives realloc(.., 0) / a p_jh without slot 0; the harness output is lost when the tool aborts)
+                    k_ = "F23:whfast-step-with-N-0-writes-outside-p_jh"
+                c.violation(k_, "%s, keep_sorted=%d: %s" % (integ, ks, bad),
                             {"integrator": integ, "harness_lines": L, "report": res["report"]})
 
 
@@ -1588,7 +1630,8 @@ def run(c):
         "restore_then_lookup:archive", "restore_then_lookup:copy", "restore_then_lookup:pickle", "restore_then_lookup:simulationarchive",
         "scale:N_up_across_128_and_1024", "scale:N_down_across_1024_and_128", "roles:N_active_set_in_tie", "variational_particles_present",
         "callback:free_particle_ap_installed", "ap_pointer_travels_with_particle", "histories:tree_update_between_ops",
-        "histories:mercurius_step_between_ops_in_tie", "scale:allocation_steps_in_tie"]
+        "histories:mercurius_step_between_ops_in_tie", "scale:allocation_steps_in_tie", "trace_midstep_removal_of_last_particle"] + [
+        "step_with_N_1_and_N_0:" + k for k in ("whfast", "saba", "ias15", "leapfrog", "janus", "mercurius", "eos", "bs", "trace")]
     for k in required:
         if not dims.get(k):
             c.broken.append("dimension %s not covered" % k)
